@@ -152,8 +152,12 @@ func runC01(c *core.Ctx) {
 		accepted := false
 		for _, eng := range host.AllEngines {
 			h := host.New()
-			o := h.RunScript(eng, p.Source, nil, nil)
+			o := h.RunScript(eng, p.Source, nil, guard())
 			c.Eval(1)
+			if memGuarded(o) {
+				c.Inc("memory_guard_skipped")
+				continue
+			}
 			if isCheckerRejection(o) {
 				if eng == host.EngI {
 					c.Inc("rejected_by_checker")
@@ -213,8 +217,12 @@ func runC01(c *core.Ctx) {
 		}
 		for i, tx := range txs {
 			preLedger, preUUID := h.Ledger.Clone(), h.UUID
-			o := h.RunTx(eng, tx.Source, nil, signersFor(tx.Source), nil)
+			o := h.RunTx(eng, tx.Source, nil, signersFor(tx.Source), guard())
 			c.Eval(1)
+			if memGuarded(o) {
+				c.Inc("memory_guard_skipped")
+				continue
+			}
 			if isCheckerRejection(o) {
 				if eng == host.EngI {
 					c.Inc("tx_rejected_by_checker")
